@@ -593,3 +593,85 @@ func FieldMembers(f *rm.Field, o Opts) []*rm.Value {
 	}
 	return out
 }
+
+// Long builds a variable-length-heavy variant of base D: every prefixed text is
+// 300 bytes (forces buffer growth between a placeholder and its patch), every list has 3 elements.
+func Long(t *rm.Type) *rm.Value {
+	v := Distinct(t)
+	n := 0
+	longify(v, &n)
+	return v
+}
+
+func longify(v *rm.Value, n *int) {
+	t := v.Type
+	for i := range t.Fields {
+		f := &t.Fields[i]
+		*n++
+		switch f.Kind {
+		case "lentext":
+			v.Fields[i] = rm.Text(rolling(*n, 300))
+		case "list":
+			l := &rm.Value{K: rm.VList}
+			for j := 0; j < 3; j++ {
+				if f.Elem.Kind == "struct" {
+					e := Distinct(t.Proto.Type(f.Elem.Type))
+					longify(e, n)
+					l.Elems = append(l.Elems, e)
+				} else if f.Elem.Kind == "lentext" {
+					l.Elems = append(l.Elems, rm.Text(rolling(*n+j, 40+j)))
+				} else {
+					l.Elems = append(l.Elems, elemValue(f.Elem, *n, j))
+				}
+			}
+			v.Fields[i] = l
+		case "struct", "dyn":
+			if !v.Fields[i].Nil {
+				longify(v.Fields[i], n)
+			}
+		}
+	}
+}
+
+// WithKey builds a frame / extended message of type t whose dyn part is the body registered for key, at base "Z", "D" or "L".
+func WithKey(t *rm.Type, key, base string) *rm.Value {
+	var v *rm.Value
+	if base == "Z" {
+		v = rm.Zero(t)
+	} else {
+		v = Distinct(t)
+	}
+	f := &t.Fields[t.DynField()]
+	tab := t.Proto.Table(f.Factory)
+	bt := t.Proto.Type(tab.Entries[key])
+	var body *rm.Value
+	switch base {
+	case "Z":
+		body = rm.Zero(bt)
+	case "L":
+		body = Long(bt)
+	default:
+		body = Distinct(bt)
+	}
+	rm.SetDyn(v, key, body)
+	return v
+}
+
+// Stale sets every self-computed field of v to a stale caller value.
+func Stale(v *rm.Value, bits uint64) *rm.Value {
+	c := v.Clone()
+	for i := range c.Type.Fields {
+		f := &c.Type.Fields[i]
+		if f.Kind == "length" || f.Kind == "checksum" {
+			c.Fields[i] = rm.Scalar(bits & rm.MaxOf("u"+f.Scalar[1:]))
+		}
+	}
+	return c
+}
+
+// NilDyn returns v with its dyn part absent (key kept).
+func NilDyn(v *rm.Value) *rm.Value {
+	c := v.Clone()
+	c.Fields[c.Type.DynField()] = rm.NilStruct()
+	return c
+}
